@@ -206,6 +206,33 @@ impl Admin {
                 let s = self.signer_for(w, r, "admin");
                 let caps = [None, Some(wi(1.5)), Some(wi(15.0)), Some(wi(20.0)), Some(wi(99.0)), Some(wi(100.0)), Some(wi(2.0))];
                 let (ci, cm) = (pick(r, &caps), pick(r, &caps));
+                if r.gen_bool(0.3) {
+                    // role rotation: two delegated roles are handed to one shared key (or revoked to
+                    // the default key) in a single call, then the original keys are put back
+                    let orig = w.groups[self.g].roles();
+                    let mut rot = orig;
+                    let shared = pick(r, &[Pubkey::default(), w.user_kp(0).pubkey(), orig.emode, orig.metadata, orig.risk]);
+                    for _ in 0..2 {
+                        match r.gen_range(0..6) {
+                            0 => rot.emode = shared,
+                            1 => rot.curve = shared,
+                            2 => rot.limit = shared,
+                            3 => rot.emissions = shared,
+                            4 => rot.metadata = shared,
+                            _ => rot.risk = shared,
+                        }
+                    }
+                    let i = ix::group_configure(gk, s.pubkey(), rot, ci, cm);
+                    let o = w.exec(m, &[i], &[&s]).await;
+                    if o.ok() {
+                        let admin = clone_kp(&w.groups[self.g].admin);
+                        let i = ix::group_configure(gk, admin.pubkey(), orig, None, None);
+                        let back = w.exec(m, &[i], &[&admin]).await;
+                        assert!(back.ok(), "roles could not be restored: {}", back.err_string());
+                        m.r.count("admin.role_rotations");
+                    }
+                    return Some(o);
+                }
                 let i = ix::group_configure(gk, s.pubkey(), w.groups[self.g].roles(), ci, cm);
                 w.exec(m, &[i], &[&s]).await
             }
